@@ -151,6 +151,38 @@ fn cases(thorough: bool) -> Vec<Case> {
             }
         }
     }
+    // `<<-` strips the leading tabs of every body line and of the delimiter line, and nothing else
+    {
+        let lines: [(&str, &str); 8] = [
+            ("\tname\tsize", "name\tsize"),
+            ("\t\tfoo\t42\t", "foo\t42\t"),
+            ("key\tvalue", "key\tvalue"),
+            ("\téa\tb", "éa\tb"),
+            ("é\tb", "é\tb"),
+            ("\t", ""),
+            (" \tx", " \tx"),
+            ("\t \ty\t\t", " \ty\t\t"),
+        ];
+        for n in 1..=lines.len() {
+            for rot in 0..lines.len() {
+                let sel: Vec<(&str, &str)> = (0..n).map(|i| lines[(rot + i) % lines.len()]).collect();
+                let body: String = sel.iter().map(|l| format!("{}\n", l.0)).collect();
+                let want: String = sel.iter().map(|l| format!("{}\n", l.1)).collect();
+                for (open, close) in [("<<-E", "E"), ("<<-'E'", "\tE"), ("<<-\\E", "\t\tE")] {
+                    out.push(Case {
+                        script: format!("hsink 300 {open}\n{body}{close}\n"),
+                        expected: m(vec![("M", hs(want.as_bytes()))]),
+                        size: want.len(),
+                    });
+                }
+                out.push(Case {
+                    script: format!("cat 700 <<-E | hsink\n{body}\tE\n"),
+                    expected: m(vec![("M.2", hs(want.as_bytes()))]),
+                    size: want.len(),
+                });
+            }
+        }
+    }
     // far beyond the pipe capacity (1024 bytes in the simulator): 10x, 20x, 64 KiB + 1
     let big: &[usize] = if thorough { &[10240, 20000, 65537] } else { &[10240] };
     for &n in big {
@@ -317,7 +349,7 @@ pub fn run(tier: Tier) -> i32 {
         "cases_with_all_cooperative_schedules_explored": unbounded_complete.load(Relaxed),
         "cases_where_unbounded_search_was_capped_and_bound_2_completed_instead": capped.load(Relaxed),
         "executions_discarded_unrepresentable": discarded.load(Relaxed),
-        "explanation": "payload sizes around PIPE_BUF(512)/pipe capacity(1024) x trailing/embedded newlines (and payloads of 2-/3-/4-byte characters straddling the boundaries) x pipeline shapes/command substitutions/here-documents x reader buffer sizes; each case under all cooperative schedules (payload <= 1025 bytes), deviation bound 2/3 (<= 4096 bytes) or 1 (10240, 20000, 65537 bytes), plus syscall-tap preemption at deviation bound 1; oracle = byte-exact length+FNV hash at the consumer, exact trailing-newline removal for $( )",
+        "explanation": "payload sizes around PIPE_BUF(512)/pipe capacity(1024) x trailing/embedded newlines (and payloads of 2-/3-/4-byte characters straddling the boundaries) x pipeline shapes/command substitutions/here-documents (<< and <<- with leading, inner and trailing tabs and multi-byte line starts) x reader buffer sizes; each case under all cooperative schedules (payload <= 1025 bytes), deviation bound 2/3 (<= 4096 bytes) or 1 (10240, 20000, 65537 bytes), plus syscall-tap preemption at deviation bound 1; oracle = byte-exact length+FNV hash at the consumer, exact trailing-newline removal for $( )",
     });
     ctx.finish(cov, &["simulator constants PIPE_BUF=512, pipe capacity=1024", "probe built-ins gen/cat/hsink/chk are trusted"])
 }
